@@ -769,7 +769,7 @@ def only_used_by(ctx, f, allowed, _seen=()):
                                for u in users)
 
 
-def topo_loops(ctx, f, depth=2, _seen=None):
+def topo_loops(ctx, f, depth=2, _seen=None, exclude=()):
     """the `for x in self.topological_order()` loops of f, or of the private methods it calls on self
     (helper extraction must not hide the iteration order from the rules)"""
     _seen = _seen if _seen is not None else set()
@@ -783,5 +783,6 @@ def topo_loops(ctx, f, depth=2, _seen=None):
             if isinstance(n, ast.Call) and isinstance(n.func, ast.Attribute) and isinstance(n.func.value, ast.Name) \
                     and n.func.value.id == 'self' and n.func.attr.startswith('_'):
                 g = ctx.prog.supplier(f.cls, n.func.attr)
-                out += topo_loops(ctx, g, depth - 1, _seen)
+                if g is not None and g.name not in exclude:
+                    out += topo_loops(ctx, g, depth - 1, _seen, exclude)
     return out
